@@ -286,3 +286,31 @@ def rooted_in_rejection(e) -> bool:
         e = e.__context__ or e.__cause__
         seen += 1
     return False
+
+
+def pybcj_small_feed_faulty(chain, stream, chunk) -> bool:
+    """True when the third-party branch-filter decoder (pybcj), driven directly and alone, mis-decodes
+    its own encoder's output when it is fed in pieces of `chunk` bytes (what a tiny extraction chunk
+    limit makes the upstream decoder hand over). Classification only."""
+    front = [c["f"] for c in chain if c["f"] in G.BCJ]
+    if not front or not chunk or chunk > 8:
+        return False
+    import bcj
+
+    enc_cls = {"X86": bcj.BCJEncoder, "ARM": bcj.ARMEncoder, "ARMTHUMB": bcj.ARMTEncoder, "POWERPC": bcj.PPCEncoder, "SPARC": bcj.SparcEncoder}
+    dec_cls = {"X86": bcj.BCJDecoder, "ARM": bcj.ARMDecoder, "ARMTHUMB": bcj.ARMTDecoder, "POWERPC": bcj.PPCDecoder, "SPARC": bcj.SparcDecoder}
+    whole = stream if isinstance(stream, (bytes, bytearray)) else b"".join(stream)
+    try:
+        e = enc_cls[front[0]]()
+        enc = e.encode(whole) + e.flush()
+        d = dec_cls[front[0]](len(whole))
+        out = b""
+        for i in range(0, len(enc), chunk):
+            out += d.decode(enc[i : i + chunk])
+        k = 0
+        while len(out) < len(whole) and k < 10:
+            out += d.decode(b"")
+            k += 1
+        return out != whole
+    except Exception:
+        return True
